@@ -1,0 +1,47 @@
+//go:build verif
+
+package cache
+
+// Verification hooks for property C07 (memory cache entry protocol).
+// Add-only; compiled only with -tags verif.
+
+import (
+	"time"
+
+	"github.com/IrineSistiana/mosproxy/internal/pool"
+)
+
+// VerifDelete removes the binding of k from the backend (the deletion listener, releaseEntry, runs
+// whenever otter's worker gets to it) — a deterministic stand-in for size eviction / expiry.
+func (c *MemoryCache) VerifDelete(k []byte) { c.backend.Delete(string(k)) }
+
+// VerifSize is the number of live bindings.
+func (c *MemoryCache) VerifSize() int { return c.backend.Size() }
+
+// VerifPlant binds k to an entry in the state a reader finds when it lost the race against eviction
+// between backend.Get and TryRLock: the entry carries key ek / value ev (hasV=false: released, v == nil)
+// and, with wlocked, is write-locked as it is while releaseEntry runs.  The returned function undoes the
+// write lock.  The entry comes from the same pool as every other entry.
+func (c *MemoryCache) VerifPlant(k, ek, ev []byte, hasV, wlocked bool) (unlock func()) {
+	e := newCacheEntry()
+	e.l.Lock()
+	now := time.Now()
+	e.storedTime = now
+	e.expireTime = now.Add(time.Hour)
+	e.k = string(ek)
+	if hasV {
+		e.v = pool.CopyBuf(ev)
+	} else {
+		e.v = nil
+	}
+	e.l.Unlock()
+	if wlocked {
+		e.l.Lock()
+	}
+	c.backend.Set(string(k), e, time.Hour)
+	return func() {
+		if wlocked {
+			e.l.Unlock()
+		}
+	}
+}
